@@ -118,7 +118,7 @@ fn case<G: CurveTag>(bytes: &[u8], col: &mut Collector) -> Result<(), Failure> {
     let cut = bytes.len().min(8);
     let mut chi = Choices::new(&bytes[..cut]);
     let bad = chi.chance(64);
-    let cfg = GenCfg { max_ops1: 12, max_closures: 3, max_ops2: 8, max_commits: 4, big_gates: 0 , max_terms: 4};
+    let cfg = GenCfg { max_ops1: 12, max_closures: 3, max_ops2: 8, max_commits: 4, big_gates: 0 , max_terms: 4, wide: false};
     let (mut prog, label) = if bad {
         let (p, l) = gen_bad(&bytes[cut..], G::CURVE, &cfg);
         (p, format!("bad witness ({})", l))
